@@ -52,7 +52,7 @@ func GenDoc(r *rand.Rand, id int) *Doc {
 			continue
 		}
 		nel := 1
-		if r.Intn(4) == 0 {
+		if r.Intn(3) == 0 {
 			nel = 2
 		}
 		for e := 0; e < nel; e++ {
@@ -126,8 +126,63 @@ func GenHistory(r *rand.Rand, nids, nbatch int) (History, map[int]*Doc) {
 
 // Corpus facts the query generator biases towards (boundaries).
 type Facts struct {
-	IDs  []int // ids ever used (live or deleted)
-	NIDs int
+	NIDs int    // size of the id space (ids 0..NIDs-1 may exist, NIDs never does)
+	Docs []*Doc // the live documents: phrases are cut out of them, at and across array-element boundaries
+}
+
+// phraseFrom cuts a phrase out of a live document: inside one array element
+// (a true phrase), or across two elements at consecutive positions (matches
+// only if array positions are ignored), or with the order swapped.
+func phraseFrom(r *rand.Rand, f Facts) (string, []Term, bool) {
+	if len(f.Docs) == 0 {
+		return "", nil, false
+	}
+	for try := 0; try < 6; try++ {
+		d := f.Docs[r.Intn(len(f.Docs))]
+		fld := PhraseFields[r.Intn(2)]
+		els := d.Txt[fld]
+		if len(els) == 0 {
+			continue
+		}
+		switch r.Intn(4) {
+		case 0, 1: // inside an element
+			el := els[r.Intn(len(els))]
+			p := r.Intn(len(el))
+			n := 1 + r.Intn(3)
+			if p+n > len(el) {
+				n = len(el) - p
+			}
+			return fld, append([]Term{}, el[p:p+n]...), true
+		case 2: // across elements: token at position p of one, p+1.. of another
+			if len(els) < 2 {
+				continue
+			}
+			a, b := els[0], els[1]
+			if r.Intn(2) == 0 {
+				a, b = b, a
+			}
+			p := r.Intn(len(a))
+			if p+1 >= len(b) {
+				continue
+			}
+			out := []Term{a[p], b[p+1]}
+			if p+2 < len(b) && r.Intn(2) == 0 {
+				out = append(out, b[p+2])
+			}
+			return fld, out, true
+		default: // swapped order / a gap
+			el := els[r.Intn(len(els))]
+			if len(el) < 2 {
+				continue
+			}
+			p := r.Intn(len(el) - 1)
+			if p+2 < len(el) && r.Intn(2) == 0 {
+				return fld, []Term{el[p], el[p+2]}, true
+			}
+			return fld, []Term{el[p+1], el[p]}, true
+		}
+	}
+	return "", nil, false
 }
 
 func pickField(r *rand.Rand) string { return TextFields[r.Intn(len(TextFields))] }
@@ -187,6 +242,10 @@ func GenLeaf(r *rand.Rand, f Facts) *Node {
 		n := &Node{Type: "phrase", Field: PhraseFields[r.Intn(2)]}
 		if r.Intn(2) == 0 {
 			n.Type = "match_phrase"
+		}
+		if fld, ts, ok := phraseFrom(r, f); ok && r.Intn(5) > 0 {
+			n.Field, n.Terms = fld, ts
+			return n
 		}
 		for k := 1 + r.Intn(3); k > 0; k-- {
 			n.Terms = append(n.Terms, word(r))
